@@ -14,6 +14,7 @@ STAGE_TEXT = {
     "minter-numeric": "numeric stage: real-magnitude schedules (amounts to 10^27, millisecond times) executed twice with different block cadences on the real keeper; sampled totals, remainder hand-overs and the reported inflation are checked by Apalache as relations over spec/MinterMath.tla at P = 10^18",
     "vesting-numeric": "numeric stage: TLC enumerates spec/mc/MC_Split (all small splits) and prints the cases in which rounding matters; the harness lifts them to real magnitude (and adds seeded amounts to 10^30 and pool sends with 18-digit free fractions), executes them on the real handlers, and Apalache checks every recorded step against spec/VestingMath.tla at P = 10^18",
     "split-drift-mc": "TLC checks the schedule drift bound of the split arithmetic (VestingMath.tla) exhaustively at small scale",
+    "vesting-huge": "real-magnitude pool life-cycles (amounts around 2^63 and up to 10^30: create, early withdraw, withdraw or send with its implicit withdraw after one lock end, repeated withdraw) on the real handlers with backing, bounds, pay-out and registered-invariant predicates evaluated on the real state",
     "dist-huge": "real-magnitude runs of the distributor (amounts to 10^30) with the books and share predicates evaluated on the real state",
     "chain-replicas": "TLC-generated histories (including failed multi-message transactions) executed through real ABCI with Commit by two OS processes, in-process repetitions, and a replica that is restarted (new application object on the committed store) after every commit",
 }
